@@ -142,6 +142,15 @@ def run(ctx: Ctx):
                     hb = rng.uniform(0.0, np.pi / 2, m); hl = rng.uniform(gE[0], gE[-1], m)
                     obj.tau_exit_prob(hb, hl); hist += list(zip(hb, hl)); ctx.count("hist_call")
             qb = rng.uniform(0.0, 0.8, 4); ql = rng.uniform(gE[0], gE[-1], 4)
+            if hcase < 4:
+                # directed: an earlier call of the SAME shape whose in-table / above-table pattern is the opposite of the query's
+                above = np.array([hcase % 2 == 0, hcase % 2 == 1, True, False])
+                qb = np.where(above, rng.uniform(np.radians(42.5), np.pi / 2, 4), rng.uniform(0.01, np.radians(41.5), 4))
+                hb = np.where(~above, rng.uniform(np.radians(42.5), np.pi / 2, 4), rng.uniform(0.01, np.radians(41.5), 4))
+                hl = rng.uniform(gE[0], gE[-1], 4)
+                obj.tau_exit_prob(hb, hl); hist += list(zip(hb, hl)); ctx.count("hist_call_same_shape_opposite_pattern")
+                if hcase >= 2:   # and once more with the query's own pattern at other energies
+                    obj.tau_exit_prob(qb.copy(), rng.uniform(gE[0], gE[-1], 4)); ctx.count("hist_call")
             if v == "1" and (raw <= 0).any():   # aim at the floored entries
                 zi, zj = np.nonzero(raw <= 0); pick = rng.integers(0, len(zi))
                 qb[0], ql[0] = gB[zj[pick]], gE[zi[pick]]
